@@ -475,8 +475,11 @@ class SimStream:
 class SimEnv:
     """world of simulated processes; scripts: list of (stdout, stderr, returncode) taken in spawn order"""
 
-    def __init__(self, sch, scripts, allow_spawn_failure=False, allow_term_ignored=True):
+    def __init__(self, sch, scripts, allow_spawn_failure=False, allow_term_ignored=True, with_child=False):
         self.allow_term_ignored = allow_term_ignored
+        # with_child: every spawned solver process has one child process of its own (a wrapper script's worker) that may exit by
+        # itself at any moment; signalling a process that is gone raises NoSuchProcess, as psutil does
+        self.with_child = with_child
         self.sch = sch
         self.scripts = list(scripts)
         self.procs = []
@@ -499,6 +502,9 @@ class SimEnv:
         sch.note(f"spawn:{p.pid}")
         sch.events.append(EnvEvent(f"exit:{p.pid}", lambda: p.state == "running", lambda: p._exit(p.script[2])))
         sch.events.append(EnvEvent(f"timeout:{p.pid}", lambda: p.state == "running" and p.comm_waiting_with_timeout and not p.timeout_fired, p._fire_timeout))
+        if self.with_child:
+            p.child = SimChild(self, p)
+            sch.events.append(EnvEvent(f"child-exit:{p.pid}", lambda: p.child.state == "running", lambda: p.child._exit(0)))
         return p
 
     # -- psutil -----------------------------------------------------------------------------------
@@ -520,10 +526,17 @@ class SimEnv:
 
             def children(self, recursive=False):
                 env.sch.point("psutil-children")
+                ch = getattr(self.p, "child", None)
+                if ch is not None and ch.state == "running":
+                    w = Process.__new__(Process)
+                    w.p = ch
+                    return [w]
                 return []
 
             def terminate(self):
                 env.sch.point("psutil-terminate")
+                if self.p.state != "running" and isinstance(self.p, SimChild):
+                    raise NoSuchProcess(self.p.pid)  # the child is gone (exited and reaped by its parent)
                 if self.p.state == "running":
                     if env.allow_term_ignored and env.sch.choose(2, "sigterm") == 1:
                         # the process ignores / is slow to act on SIGTERM: only kill() ends it (or its own exit later)
@@ -534,6 +547,8 @@ class SimEnv:
 
             def kill(self):
                 env.sch.point("psutil-kill")
+                if self.p.state != "running" and isinstance(self.p, SimChild):
+                    raise NoSuchProcess(self.p.pid)
                 if self.p.state == "running":
                     self.p._exit(-9)
 
@@ -550,6 +565,25 @@ class SimEnv:
                 return self.p.state == "running"
 
         return types.SimpleNamespace(Process=Process, NoSuchProcess=NoSuchProcess, TimeoutExpired=TimeoutExpired)
+
+
+class SimChild:
+    """a child process of a solver process: no pipes, nobody waits on it; it runs until it exits by itself or is signalled"""
+
+    def __init__(self, env, parent):
+        self.env = env
+        self.pid = parent.pid + 500
+        self.state = "running"
+        self.returncode = None
+        self.exit_step = None
+        self.spawn_step = env.sch.step
+
+    def _exit(self, rc):
+        if self.state == "running":
+            self.state = "exited"
+            self.returncode = rc
+            self.exit_step = self.env.sch.step
+            self.env.sch.note(f"child-exit:{self.pid}:{rc}")
 
 
 class SimProc:
